@@ -42,7 +42,12 @@ def models(ctx, thorough):
     if thorough:
         # F7 only bites when fetch ranges share a URL: the URL-keyed flight with one URL per range is correct
         ctx.model("MC_Reconstruct", "MC_Reconstruct_flight_perrange.cfg", must_cover=("MCFlightEnd",))
+        # <= 3 terms over <<1,2>>, <<3>> with <= 2 ordered fetch ranges per xorb, all cache modes
         ctx.model("MC_Reconstruct", "MC_Reconstruct_big.cfg", timeout=3400, must_cover=MUST_COVER)
+        # <= 3 terms over one xorb <<2,3,1>>, <= 2 ordered fetch ranges (cache on, initially empty)
+        ctx.model("MC_Reconstruct", "MC_Reconstruct_one3.cfg", timeout=3400)
+        # <= 2 terms, every chunk-length assignment {1,2,3}^3 of the first xorb (cache on, initially empty)
+        ctx.model("MC_Reconstruct", "MC_Reconstruct_lens.cfg", timeout=3400)
 
 
 def record(ctx, w, label, counts, env=None, **kw):
@@ -76,7 +81,7 @@ def check(ctx):
     counts = {}
     gens = {}
     # (cfg, how many scenarios are replayed; None = all of them)
-    plan = [("small", "Gen_Reconstruct_small.cfg", None), ("mid", "Gen_Reconstruct.cfg", None if thorough else 100),
+    plan = [("small", "Gen_Reconstruct_small.cfg", None), ("mid", "Gen_Reconstruct.cfg", 2500 if thorough else 100),
             ("t3", "Gen_Reconstruct_t3.cfg", None if thorough else 100)]
     for label, cfg, take in plan:
         scn = ctx.generate("Gen_Reconstruct", cfg, name="gen_reconstruct_" + label)
@@ -93,6 +98,10 @@ def check(ctx):
     ctx.notes["scenarios"] = gens
     # every (file, byte range, plan) of the `small` bound runs in all 12 mode combinations
     ctx.exhaustive = True
+    ctx.notes["exhaustive_bound"] = ("replay: all files of <= 2 terms over xorbs <<1,2>>, <<3>>, all byte ranges + the whole-file call, "
+                                     "all plans with <= 2 ordered fetch ranges per xorb, x {sequential, parallel} x {no cache, cold, warm} x "
+                                     "{url per range, url per xorb}; completion orders are steered by response delays, not enumerated "
+                                     "(the model enumerates them)")
     k = 5 if thorough else 1
     record(ctx, w, "random", counts, mode="random", n=40 * k, terms=12, seed=ctx.seed, fresh=8)
     record(ctx, w, "randombig", counts, mode="random", n=3 * k, terms=300, big=1, seed=ctx.seed + 1, fresh=2)
@@ -115,3 +124,53 @@ def check(ctx):
 
 def replay(ctx, path):
     return 0 if validate(ctx, path, "replay") else 1
+
+
+def selftest(ctx):
+    """Binding controls: the model controls must be violated, and a recorded trace with ONE corrupted field must be
+    rejected at exactly that line."""
+    vlib.build_harness()
+    w = vlib.workdir("c17_selftest")
+    for b in ["offset_every_term", "remaining_kept", "fileoff_first", "trim_rel_term", "flight_url_only"]:
+        ctx.model("MC_Reconstruct", "MC_Reconstruct_bug_%s.cfg" % b, expect_violation="Invs", coverage=False)
+    scn = ctx.generate("Gen_Reconstruct", "Gen_Reconstruct_small.cfg")[::9]
+    sp = os.path.join(w, "scn.ndjson")
+    with open(sp, "w") as f:
+        for s in scn:
+            f.write(json.dumps(s) + "\n")
+    t = os.path.join(w, "par.ndjson")
+    vlib.xv("reconstruct", env=WRITERS["par"], mode="scn", out=t, dir=os.path.join(w, "run"), fresh=0, **{"in": sp})
+    lines = open(t).read().splitlines()
+    ok, d, _ = vlib.run_trace_tlc("Trace_Reconstruct", TRACE_CFG, t)
+    if not ok:
+        log_line = lines[d - 1] if d else "?"
+        raise vlib.ToolError("selftest: the uncorrupted trace is rejected at line %s: %s" % (d, log_line))
+
+    def bump(field):
+        def f(r):
+            r[field] += 1
+        return f
+
+    def first_piece(r):
+        r["out"][0][1] += 1
+    controls = [("RcEnd", first_piece), ("RcEnd", bump("n")), ("RcParPlan", bump("off")), ("RcParPlan", bump("end")),
+                ("RcFetched", bump("len")), ("RcHit", bump("len")), ("RcPlan", bump("off")), ("RcServe", bump("b")),
+                ("RcParWrite", bump("len"))]
+    bad = 0
+    for i, (ev, mut) in enumerate(controls):
+        idx = [j for j, l in enumerate(lines) if '"ev":"%s"' % ev in l]
+        j = idx[len(idx) // 2]
+        r = json.loads(lines[j])
+        mut(r)
+        cp = os.path.join(w, "corrupt_%d.ndjson" % i)
+        with open(cp, "w") as f:
+            f.write("\n".join(lines[:j] + [json.dumps(r, separators=(",", ":"))] + lines[j + 1:]) + "\n")
+        ok, d, _ = vlib.run_trace_tlc("Trace_Reconstruct", TRACE_CFG, cp)
+        verdict = "rejected at line %s" % d if not ok else "ACCEPTED"
+        vlib.log("[selftest] %s corrupted at line %d: %s" % (ev, j + 1, verdict))
+        if ok or d != j + 1:
+            bad += 1
+    if bad:
+        raise vlib.ToolError("selftest: %d corrupted traces were not rejected at the corrupted line" % bad)
+    vlib.log("[selftest] C17: 5 model controls violated, %d/%d corrupted traces rejected at the corrupted line" % (len(controls), len(controls)))
+    return 0
